@@ -26,7 +26,7 @@ PLAN = {
         custom("C09:entry-point-list", _entry_points_fresh),
         tape("C09_args", 0, mode="ex", name="C09_args:table"),
         tape("C09", 96000, size=300),
-        tape("C09", 0, mode="ex", bound=2, name="C09:ex2-asan"),
+        tape("C09_ex", 0, mode="ex", bound=2, name="C09_ex:ex2-asan"),
         tape("C09_ex", 0, mode="ex", bound=3, flavour="plain", name="C09_ex:ex3-plain"),
     ],
     "thorough": [
@@ -34,7 +34,7 @@ PLAN = {
         custom("C09:entry-point-list", _entry_points_fresh),
         tape("C09_args", 0, mode="ex", name="C09_args:table"),
         tape("C09", 3000000, size=400),
-        tape("C09", 0, mode="ex", bound=3, name="C09:ex3-asan"),
+        tape("C09_ex", 0, mode="ex", bound=3, name="C09_ex:ex3-asan"),
         tape("C09_ex", 20000000, mode="ex", bound=4, flavour="plain", name="C09_ex:ex4-plain(first 2e7)", worker_timeout=7200),
     ],
     "class_floors": {"lookalike-operand": 0.15, "linked-drop": 0.10, "mode:allow-known": 0.05, "rel:self-parented": 0.005, "rel:ancestor": 0.01, "rel:nested": 0.005, "rel:move": 0.10},
